@@ -9,6 +9,11 @@ propagated exception class + message) and this event log are compared with the p
 a Python-semantics reference interpreter (vlib/c14_util.Model) for the same abstract tree.
 Every case is compiled once and rendered several times (same or different namespace / loop
 rows): compiled tag objects must not remember anything of an earlier activation.
+Besides the probes, the templates read error_type / error_value / error_tb themselves (dtml-var,
+expressions, dtml-if), block kinds include the dtml-with spellings that render a block in a new
+namespace object, and a fifth of the cases is compiled a second time by another template class of
+the public API (security-restricted HTML, String in its own syntax, restricted String) and must
+behave the same.
 """
 import hashlib
 import json
@@ -38,10 +43,11 @@ RULE = ('(1) exhaustive handler grid: handler lists of length <=3 over {E1,E2,E3
         'contexts of (1),(2) and a third form of (5).  Handlers, else, finally and body blocks of every '
         'grid hold a tag group in which the TEMPLATE reads error_type / error_value / error_tb (dtml-var, '
         'expression, dtml-if, _[...]), guarded by dtml-if so that it renders [-] where nothing is bound.  '
-        'Every 4th case of every part is compiled and compared once more with a template class carrying '
+        'Every 5th case of every part is compiled and compared once more with a template class carrying '
         'the DocumentTemplate.security.RestrictedDTML mix-in (AccessControl guards on the namespace; default '
         'policy, anonymous user; harness objects declare themselves public), every other of those with plain '
-        'sub-templates.  distinct = distinct (template source, sub-template '
+        'sub-templates; one in six of these extra compilations uses DT_String.String with the source '
+        'rewritten into its %(...) syntax, one in six the restricted String.  distinct = distinct (template source, sub-template '
         'sources, environment, template class); '
         'non-trivial = the model executes at least one raise or return, or renders an else/finally block')
 ASSUMPTIONS = ['a dtml-raise name that is neither a builtin nor a zExceptions class raises *some* Exception '
@@ -103,23 +109,52 @@ class Holder:
             raise AttributeError(k)
 
 
-KLASSES = ['plain', 'restricted', 'mixed']
+KLASSES = ['plain', 'restricted', 'mixed', 'string', 'restricted-string']
 _classes = {}
+_TAG = None
+
+
+def to_string_syntax(src):
+    """The same template in the %(...) syntax of DT_String.String (DT_String docstrings:
+    ``%(name args)s`` inserts, ``%(tag args)[`` ... ``%(tag)]`` is a block, ``%(tag args)!`` a
+    non-block command).  Purely textual; the generated sources hold no '%' and no '>' in quotes."""
+    global _TAG
+    import re
+    if _TAG is None:
+        _TAG = re.compile(r'<(/?)dtml-([a-z]+)((?:[^>"]|"[^"]*")*)>')
+    if '%' in src:
+        raise ValueError('literal % in a generated source')
+
+    def f(m):
+        close, name, args = m.group(1), m.group(2), m.group(3).strip()
+        if close:
+            return '%%(%s)]' % name
+        if args.startswith('"'):
+            args = 'expr=' + args
+        end = 's' if name == 'var' else '!' if name in ('return', 'call') else '['
+        return '%%(%s%s)%s' % (name, ' ' + args if args else '', end)
+    return _TAG.sub(f, src)
 
 
 def template_classes(klass):
     """(class of the called template, class of its sub-templates).  'restricted': HTML with the
     DocumentTemplate.security.RestrictedDTML mix-in (the namespace carries the AccessControl
     guards, as for through-the-web DTML in Zope; the process keeps the default security policy
-    and an anonymous user); 'mixed': restricted caller, plain sub-templates."""
+    and an anonymous user); 'mixed': restricted caller, plain sub-templates; 'string' /
+    'restricted-string': DT_String.String and its %(...) syntax, plain / with the mix-in."""
     if not _classes:
         from DocumentTemplate.DT_HTML import HTML
+        from DocumentTemplate.DT_String import String
         from DocumentTemplate.security import RestrictedDTML
 
         class RestrictedHTML(RestrictedDTML, HTML):
             pass
+
+        class RestrictedString(RestrictedDTML, String):
+            pass
         _classes.update({'plain': (HTML, HTML), 'restricted': (RestrictedHTML, RestrictedHTML),
-                         'mixed': (RestrictedHTML, HTML)})
+                         'mixed': (RestrictedHTML, HTML), 'string': (String, String),
+                         'restricted-string': (RestrictedString, RestrictedString)})
     return _classes[klass]
 
 
@@ -166,10 +201,11 @@ class Compiled:
                     ns['C_' + n[1]] = Named(self.callsub, n[1])
                 elif n[0] == 'sub' and n[2] == 'fresh':
                     ns['F_' + n[1]] = Named(self.callfresh, n[1])
+        conv = to_string_syntax if 'string' in self.klass else (lambda x: x)
         for key, nodes in case.get('subs', {}).items():
-            self.subs[key] = ns['sub_' + key] = SUB(U.to_src(nodes, style))
-        self.src = U.to_src(case['tree'], style)
-        self.subsrc = sorted((k, U.to_src(v, style)) for k, v in case.get('subs', {}).items())
+            self.subs[key] = ns['sub_' + key] = SUB(conv(U.to_src(nodes, style)))
+        self.src = conv(U.to_src(case['tree'], style))
+        self.subsrc = sorted((k, conv(U.to_src(v, style))) for k, v in case.get('subs', {}).items())
         self.tmpl = HTML(self.src)
 
     # -- probes (namespace callables / objects)
@@ -417,7 +453,9 @@ def check_render(ctx, comp, case, env, ri, varied, tally):
         return True
     ctx.count('monitor:outcome comparisons')
     ctx.count('monitor:probe events compared', len(log))
-    guarded = comp.klass != 'plain'
+    guarded = 'restricted' in comp.klass or comp.klass == 'mixed'
+    if 'string' in comp.klass:
+        ctx.count('monitor:outcome comparisons on DT_String.String templates')
     if guarded:
         ctx.count('monitor:outcome comparisons under a security-restricted template class')
     ne = sum(1 for ev in log if ev[0] == 'e')
@@ -524,8 +562,8 @@ OPTIONAL_ANCHORS = [('Try.match_base', 'DocumentTemplate.DT_Try', 'Try.match_bas
 
 def install_reach(ctx):
     """Reach counters on the anchor functions.  Anything missing (renamed / removed by a
-    refactoring) is a counter and, for the required anchors, an inconclusive reason in finish();
-    it never stops the behavioural comparison."""
+    refactoring) is a counter and a diagnosis line in the coverage record; it never stops the
+    behavioural comparison and does not by itself make the run inconclusive."""
     import importlib
     try:
         from vlib.reach import Reach
@@ -566,11 +604,14 @@ def run(ctx, spec):
         ctx.count('template class:plain')
         try:
             ok, comp = check_case(ctx, HTML, case)
-            if ok and nstyle[0] % 4 == 1:
-                # every 4th case once more, compiled by a security-restricted template class (every
-                # other time with plain sub-templates): the guards must not change anything
+            if ok and nstyle[0] % 5 == 1:
+                # every 5th case (both probe styles) once more, compiled by another template class of the
+                # public API:
+                # security-restricted HTML (also with plain sub-templates), DT_String.String in its
+                # own syntax, restricted String: neither guards nor syntax may change anything
                 rcase = dict(case)
-                rcase['klass'] = 'mixed' if case.get('subs') and (nstyle[0] // 4) % 2 else 'restricted'
+                rcase['klass'] = ('restricted', 'mixed' if case.get('subs') else 'restricted',
+                                  'restricted', 'string', 'restricted', 'restricted-string')[(nstyle[0] // 5) % 6]
                 ctx.count('template class:' + rcase['klass'])
                 check_case(ctx, HTML, rcase)
         except Exception:
@@ -661,13 +702,18 @@ def finish(agg):
     c = agg['counters']
     t = agg['tables']
     inc = []
-    # (the driver reports violations before inconclusive reasons: a missing anchor only matters
-    #  when the behavioural comparison found nothing)
+    # Anchor functions are engine internals that a harmless refactoring may rename: their reach
+    # counters are a diagnosis.  What decides is below: the outcome / event comparisons and the
+    # semantic situations the model went through while the engine agreed with it.  Only when no
+    # comparison was made at all does a missing anchor become the reason given.
+    diag = []
     for label, _, _ in ANCHORS:
         if c.get('anchor missing:' + label):
-            inc.append('anchor function not found (renamed or removed?): ' + label)
+            diag.append('anchor function not found (renamed or removed?): ' + label)
         elif not c.get('reach:' + label):
-            inc.append('anchor never entered: ' + label)
+            diag.append('anchor never entered: ' + label)
+    if diag and not c.get('monitor:outcome comparisons'):
+        inc.extend(diag)
     for k in ('monitor:outcome comparisons', 'monitor:probe events compared',
               'monitor:probes seeing error_type bound',
               'monitor:comparisons on a 2nd..nth render of one compiled template',
@@ -679,7 +725,9 @@ def finish(agg):
               'varied:cases where one try tag object gave different results',
               'varied:computed raise differs between 1st and 2nd activation',
               'varied:try differs between 1st and 2nd activation',
-              'template class:restricted', 'template class:mixed',
+              'template class:restricted', 'template class:mixed', 'template class:string',
+              'template class:restricted-string',
+              'monitor:outcome comparisons on DT_String.String templates',
               'monitor:outcome comparisons under a security-restricted template class',
               'monitor:probes seeing error_type bound under guards',
               'monitor:handler variables read by a template expression, compared'):
@@ -724,15 +772,16 @@ def finish(agg):
     nlists = len(U.handler_lists())
     return {'inconclusive': inc,
             'coverage': {'exhaustive': True,
+                         'anchor_diagnosis': diag,
                          'handler_lists': nlists,
                          'handler_grid_points': sum(1 for _ in U.grid_handler_cases()),
                          'explanation': 'handler grid, try/finally grid and one-deep placement grid are '
                                         'exhaustive in both tiers; the two-deep placement grid is exhaustive '
                                         'in thorough and a 1/16 stride in quick; the rerender and loop grids '
                                         '(one compiled template, many environments / rows) are exhaustive '
-                                        'in both tiers; random trees are seeded extras; every 4th case of every '
-                                        'part is compiled and compared a second time with a security-restricted '
-                                        'template class'}}
+                                        'in both tiers; random trees are seeded extras; every 5th case of every '
+                                        'part is compiled and compared a second time with another template '
+                                        'class (4/6 security-restricted HTML, 1/6 String, 1/6 restricted String)'}}
 
 
 def replay(ctx, rep):
